@@ -106,7 +106,9 @@ def run(ctx, build):
     from nobodd.fs import FatFileSystem
     R = ctx.runner('Fat')
     rng = ctx.rng
-    tails = 1300 if ctx.thorough else 130
+    tails = 1050 if ctx.thorough else 130
+    if ctx.thorough:
+        R.limit = 900       # a directory of 1300 long names on a 1.2 MB volume takes the list-based reader minutes, not a hang
     scenarios = [('fat12', False), ('fat16', True), ('fat32', True)] if not ctx.widen else [('fat12', False), ('fat16', True), ('fat32', True), ('fat16', False)]
     for ft, in_subdir in scenarios:
         g = fatimg.Geometry(ft, 2400 if ctx.thorough else 400, spc=1, bps=512, nfats=2, root_entries=(8192 if ctx.thorough else 1024), type_string=True)
@@ -228,7 +230,7 @@ def run(ctx, build):
                 name = f'Shared Prefix name {k}.txt'
                 if not create(name, 'numeric-tail'):
                     return
-                if k in (1, 2, 9, 10, 11, 99, 100, 101, 999, 1000, 1001, tails) or k % 97 == 0:
+                if k in (1, 2, 9, 10, 11, 99, 100, 101, 999, 1000, 1001, tails) or k % (211 if ctx.thorough else 97) == 0:
                     if not verify(name, 'tail'):
                         return
             # a name equal to an alias that is already in use / will be generated next
